@@ -207,6 +207,11 @@ type Node struct {
 	ctx     context.Context
 	cancel  context.CancelFunc
 	wg      sync.WaitGroup
+	// the log consumer has its own context and is stopped first (see Stop)
+	consumerCancel context.CancelFunc
+	consumerDone   chan struct{}
+	clientsMu      sync.Mutex
+	clients        []*Client
 	grpcSrv *grpc.Server
 	lis     *bufconn.Listener
 	connMu  sync.Mutex
@@ -302,7 +307,16 @@ func (c *Cluster) AddNode(o NodeOpts) (*Node, error) {
 	if o.PoolMax != 0 {
 		wasp.VerifSetWriterPool(writer, o.PoolMin, o.PoolMax)
 	}
-	n.run(wasp.SchedulePublishes(o.ID, writer, n.Log))
+	cctx, ccancel := context.WithCancel(ctx)
+	n.consumerCancel = ccancel
+	n.consumerDone = make(chan struct{})
+	consume := wasp.SchedulePublishes(o.ID, writer, n.Log)
+	n.wg.Add(1)
+	go func() {
+		defer n.wg.Done()
+		defer close(n.consumerDone)
+		consume(cctx)
+	}()
 	n.run(func(ctx context.Context) { writer.Run(ctx, n.Log) })
 	taps := noTaps{}
 	n.PP = wasp.NewPacketProcessor(n.Local, n.State, writer, taps, n.Dist, n.Ack)
@@ -330,7 +344,15 @@ func (n *Node) run(f func(ctx context.Context)) {
 func (n *Node) Dial(name string) *Client {
 	a, b := net.Pipe()
 	go n.Manager.Setup(n.ctx, transport.Metadata{Name: "tcp", Channel: b, RemoteAddress: name})
-	return NewClient(name, a)
+	c := NewClient(name, a)
+	n.track(c)
+	return c
+}
+
+func (n *Node) track(c *Client) {
+	n.clientsMu.Lock()
+	n.clients = append(n.clients, c)
+	n.clientsMu.Unlock()
 }
 
 // Connect dials and performs CONNECT.
@@ -354,7 +376,11 @@ func (n *Node) MustConnect(o ConnectOpts) (*Client, error) {
 
 // Stop ends the node's goroutines and closes its log. With keep the data
 // directory is left in place for a restart.
-func (n *Node) Stop(keep bool) {
+func (n *Node) Stop(keep bool) { n.stop(keep, false) }
+
+// stop ends the node. abrupt = the node "dies": its connections are not closed first (their
+// sessions must not run an orderly teardown, wills included).
+func (n *Node) stop(keep, abrupt bool) {
 	n.C.mu.Lock()
 	if n.stopped {
 		n.C.mu.Unlock()
@@ -363,6 +389,27 @@ func (n *Node) Stop(keep bool) {
 	n.stopped = true
 	delete(n.C.Nodes, n.ID)
 	n.C.mu.Unlock()
+	// Orderly stop. wasp's writer closes its queue when its context ends, and a concurrent
+	// Schedule/Send on that queue panics ("send on closed channel"): that is broker shutdown, which
+	// no property covers, so the harness avoids the race instead of reporting it: connections of
+	// this node go away first (as they would with the process), then the log consumer is stopped
+	// and waited for, and only then is everything else cancelled.
+	if !abrupt {
+		n.clientsMu.Lock()
+		for _, c := range n.clients {
+			c.Close()
+		}
+		n.clientsMu.Unlock()
+		deadline := time.Now().Add(2 * time.Second)
+		for len(n.Local.ListSessions()) > 0 && time.Now().Before(deadline) {
+			time.Sleep(2 * time.Millisecond)
+		}
+	}
+	n.consumerCancel()
+	select {
+	case <-n.consumerDone:
+	case <-time.After(5 * time.Second):
+	}
 	n.cancel()
 	done := make(chan struct{})
 	go func() { n.wg.Wait(); close(done) }()
@@ -517,7 +564,7 @@ func (c *Cluster) FailNode(n *Node) {
 	c.mu.Lock()
 	c.dead[n.ID] = true
 	c.mu.Unlock()
-	n.Stop(false)
+	n.stop(false, true)
 	for _, m := range c.nodesSnapshot() {
 		m.Members.NotifyGossipLeave(n.ID)
 	}
